@@ -26,7 +26,10 @@ Positions == {
   "for.list", "for.var", "for.matrix", "for.matrixrow", "for.varmatrix", "dep.value", "dep.task", "dep.vars", "dep.for",
   "requires.vars", "requires.var", "requires.enum", "precondition.value", "precondition.sh", "source.value", "source.exclude", "output.group" }
 
-Kinds == {"null", "empty-string", "scalar", "int", "bool", "empty-seq", "seq-scalar", "seq-null", "seq-map", "empty-map", "map-unknown", "map-null-value", "nested-seq", "tilde", "template"}
+Kinds == {"null", "empty-string", "scalar", "int", "bool", "empty-seq", "seq-scalar", "seq-null", "seq-map", "empty-map", "map-unknown", "map-null-value", "nested-seq", "tilde", "template",
+          \* strings that are special to the shell-style expansion applied to paths, globs and commands:
+          \* a comment, blanks only, an unset variable, an unterminated bracket / brace / quote, an unknown ~user
+          "hash-string", "blank-string", "unset-var-string", "bad-glob-string", "tilde-user-string", "multiline-string"}
 
 Terminators == {"LF", "CRLF", "CR"}
 
